@@ -1,4 +1,5 @@
 import CuriesVerif.Codec
+import CuriesVerif.Model.Loaders
 
 /-!
 # Operation histories over converter slots
@@ -17,6 +18,13 @@ inductive Step where
   | chain (dst : Nat) (srcs : List Nat) (cs : Bool)
   | sub (dst src : Nat) (prefixes : List Str)
   | query (c : Nat) (q : Query)
+  | dups (recs : List Record)                                   -- the listing of a strict construction
+  | loadPm (dst : Nat) (pm : List (Str × Str)) (delim : Str) (strict : Bool)
+  | loadPriority (dst : Nat) (data : List (Str × List Str))
+  | loadReverse (dst : Nat) (rpm : List (Str × Str))
+  | loadJsonld (dst : Nat) (ctx : List (Str × Loaders.JTerm))
+  | loadUpgrade (dst : Nat) (pm : List (Str × Str))             -- Converter(upgrade_prefix_map(pm))
+  | upgrade (pm : List (Str × Str))                             -- the records upgrade_prefix_map returns
 deriving Repr, Inhabited
 
 abbrev Slots := List (Nat × Conv)
@@ -30,6 +38,15 @@ def mkFold (tbl : List (Str × Str)) (s : Str) : Str :=
   match tbl.find? (·.1 == s) with
   | some (_, f) => f
   | none => s
+
+def initInto (s : Slots) (dst : Nat) (recs : Except Err (List Record)) (delim : Str) (strict : Bool) :
+    Slots × Val :=
+  match recs with
+  | .error e => (s, .err e)
+  | .ok recs =>
+    match Conv.init? recs delim strict with
+    | .ok c => (s.put dst c, .none)
+    | .error e => (s, .err e)
 
 /-- execute one step: new slots and the step's canonical result
 (`.none` for a mutation or derivation that succeeded) -/
@@ -74,6 +91,23 @@ def Step.exec (fold : Str → Str) (s : Slots) : Step → Slots × Val
     match s.get? ci with
     | none => (s, .bad "no such slot")
     | some c => (s, c.run q)
+  | .dups recs =>
+    match recs.mapM Record.validate with
+    | .error e => (s, .err e)
+    | .ok recs =>
+      let recs := sortRecords recs
+      let du := duplicates Record.allU recs
+      let d := if du.isEmpty then duplicates Record.allP recs else du
+      (s, .strs (d.map fun (r1, r2, x) => r1.pfx ++ [1114112] ++ r2.pfx ++ [1114112] ++ x))
+  | .loadPm dst pm delim strict => initInto s dst (.ok (Loaders.prefixMapRecords pm)) delim strict
+  | .loadPriority dst data => initInto s dst (Loaders.priorityRecords data) [58] true
+  | .loadReverse dst rpm => initInto s dst (Loaders.reverseRecords rpm) [58] true
+  | .loadJsonld dst ctx => initInto s dst ((Loaders.jsonldPrefixMap ctx).map Loaders.prefixMapRecords) [58] true
+  | .loadUpgrade dst pm => initInto s dst (Loaders.upgradePrefixMap pm) [58] true
+  | .upgrade pm =>
+    match Loaders.upgradePrefixMap pm with
+    | .ok recs => (s, .recs recs)
+    | .error e => (s, .err e)
 
 def runProgram (fold : Str → Str) (steps : List Step) : List Val :=
   (steps.foldl (fun (acc : Slots × List Val) st =>
@@ -100,6 +134,33 @@ def step (j : Json) : D Step := do
     pure (.chain (← nat "dst") srcs (boolD j "cs" true))
   | "sub" => pure (.sub (← nat "dst") (← nat "src") (← strs (← j.getObjVal? "prefixes")))
   | "q" => pure (.query (← nat "c") (← query j))
+  | "dups" => pure (.dups (← records (← j.getObjVal? "records")))
+  | "load_pm" =>
+    pure (.loadPm (← nat "dst") (← pairs (← j.getObjVal? "data")) (← str (fieldD j "delim" (.arr #[58])))
+      (boolD j "strict" true))
+  | "load_priority" => do
+    let items ← (← (← j.getObjVal? "data").getArr?).toList.mapM fun x => do
+      match (← x.getArr?).toList with
+      | [k, v] => pure (← str k, ← strs v)
+      | _ => throw "pair expected"
+    pure (.loadPriority (← nat "dst") items)
+  | "load_reverse" => pure (.loadReverse (← nat "dst") (← pairs (← j.getObjVal? "data")))
+  | "load_jsonld" => do
+    let items ← (← (← j.getObjVal? "data").getArr?).toList.mapM fun x => do
+      match (← x.getArr?).toList with
+      | [k, v] =>
+        let t ← match v.getObjVal? "s" with
+          | .ok sv => Loaders.JTerm.str <$> str sv
+          | .error _ =>
+            match v.getObjVal? "pd" with
+            | .ok .null => pure (Loaders.JTerm.prefixDict none)
+            | .ok idv => (fun i => Loaders.JTerm.prefixDict (some i)) <$> str idv
+            | .error _ => pure Loaders.JTerm.other
+        pure (← str k, t)
+      | _ => throw "pair expected"
+    pure (.loadJsonld (← nat "dst") items)
+  | "load_upgrade" => pure (.loadUpgrade (← nat "dst") (← pairs (← j.getObjVal? "data")))
+  | "upgrade" => pure (.upgrade (← pairs (← j.getObjVal? "data")))
   | _ => throw s!"unknown op {op}"
 
 def program (j : Json) : D (List Step) := do
